@@ -12,7 +12,7 @@ R17.7 local_providers grows only after put_provider returned true
 """
 import re
 from paths import refine_cuts
-from common import short
+from common import short, proj_roots, from_field, slice_locals, polarity, closure_returns, closure_arg
 import guards
 
 EXPLANATION = ("Bounded-growth and freshness guards over all MIR CFG paths of MemoryStore: each growth construct of the record / provider maps "
@@ -23,13 +23,8 @@ MS = "protocol::libp2p::kademlia::store::MemoryStore::"
 MUT_RX = r"(HashMap|hash_map::\w+Entry|Vec)::(insert|remove|entry|get_mut|retain|clear|drain|extend|values_mut|iter_mut|push|pop|truncate|remove_entry|or_insert\w*|or_default)$"
 
 
-def proj_roots(fn, o):
-    """projection strings of the parameter roots of operand o"""
-    return {r[2] for r in fn.roots(o) if r[0] == "param"}
 
 
-def from_field(fn, o, field):
-    return any(("." + field) in p for p in proj_roots(fn, o))
 
 
 def q_len_of(field, lenrx=r"HashMap::len$"):
@@ -45,22 +40,6 @@ def b_cfg(name):
     return lambda fn, o: any(p.endswith(".config." + name) for p in proj_roots(fn, o)) and not any(r[0] in ("call", "mutcall") for r in fn.roots(o))
 
 
-def slice_locals(fn, o, depth=0):
-    """locals reachable backwards from operand o through plain copies/moves"""
-    p = o.get("c") or o.get("m")
-    if p is None:
-        return set()
-    out = {p[0]}
-    work = [p[0]]
-    while work:
-        l = work.pop()
-        for node, kind, pl in fn.defs().get(l, []):
-            if kind == "assign" and pl["rv"]["r"] == "use":
-                q = pl["rv"]["o"].get("c") or pl["rv"]["o"].get("m")
-                if q is not None and q[0] not in out:
-                    out.add(q[0])
-                    work.append(q[0])
-    return out
 
 
 def growth_guard(ctx, fx, fn, rule, name, site_call, is_q, is_b, what):
@@ -176,47 +155,8 @@ def r17_3_4(ctx, fx):
                detail="growth after truncate: %s %s" % (grow, wr))
 
 
-def polarity(fn, o, depth=0):
-    """(sign, Call) : operand o holds (sign=+1) or the negation of (sign=-1) the boolean result of Call"""
-    p = o.get("c") or o.get("m")
-    if p is None or len(p) != 1 or depth > 8:
-        return None
-    d = fn.single_def(p[0])
-    if d is None:
-        return None
-    node, kind, pl = d
-    if kind == "call":
-        from cfg import Call
-        return (1, Call(fn, node, pl))
-    if kind == "assign":
-        rv = pl["rv"]
-        if rv["r"] == "use":
-            return polarity(fn, rv["o"], depth + 1)
-        if rv["r"] == "un" and rv["op"] == "Not":
-            r = polarity(fn, rv["o"], depth + 1)
-            return None if r is None else (-r[0], r[1])
-    return None
 
 
-def closure_returns(fn):
-    """polarity of the value returned by a small closure body: [(sign, Call)] over all writes of _0"""
-    out = []
-    for node, kind, pl in fn.defs().get(0, []):
-        if node not in fn.live_nodes():
-            continue
-        if kind == "call":
-            from cfg import Call
-            out.append((1, Call(fn, node, pl)))
-        elif kind == "assign":
-            rv = pl["rv"]
-            if rv["r"] == "use":
-                out.append(polarity(fn, rv["o"]))
-            elif rv["r"] == "un" and rv["op"] == "Not":
-                r = polarity(fn, rv["o"])
-                out.append(None if r is None else (-r[0], r[1]))
-            else:
-                out.append(None)
-    return out
 
 
 def r17_5(ctx, fx):
@@ -266,19 +206,10 @@ def r17_5(ctx, fx):
             bad = [n for n, _ in fn.exits() if n in r]
             clo = any(("const", "fn:" + cl0.key) in fn.roots(a) or any(x[0] == "const" and "get_providers::{closure#0}" in str(x[1]) for x in fn.roots(a)) for a in isa[0].args[1:])
             ctx.ob("R17.5", "get_providers/pruning-dominates-every-exit", not bad, site=fn.site(isa[0].node), cfg=fx.cfg)
-            ctx.ob("R17.5", "get_providers/pruning-closure-is-the-retain-closure", clo or _closure_arg(fn, isa[0], "get_providers::{closure#0}"), site=fn.site(isa[0].node), cfg=fx.cfg,
+            ctx.ob("R17.5", "get_providers/pruning-closure-is-the-retain-closure", clo or closure_arg(fn, isa[0], "get_providers::{closure#0}"), site=fn.site(isa[0].node), cfg=fx.cfg,
                    detail="roots: %s" % [sorted(guards.rootstrs(fn, a)) for a in isa[0].args[1:]])
 
 
-def _closure_arg(fn, call, suffix):
-    for a in call.args[1:]:
-        p = a.get("c") or a.get("m")
-        if p is None:
-            continue
-        for node, kind, pl in fn.defs().get(p[0], []):
-            if kind == "assign" and pl["rv"]["r"] == "agg" and suffix in (pl["rv"].get("closure") or ""):
-                return True
-    return False
 
 
 def _flows_to_ret(fn, c):
